@@ -27,14 +27,16 @@ class DatasetAxes(Axes):
     def __setitem__(self, key, item):
         # the dimension may be given by its position in the dataset: the
         # contained DimArrays know it by name only
-        name = key if isinstance(key, str) else self[key].name
+        pos = key if not isinstance(key, str) else [ax.name for ax in self].index(key)
+        name = list.__getitem__(self, pos).name
         super(DatasetAxes, self).__setitem__(key, item)
+        newax = list.__getitem__(self, pos)  # may carry another name
         # also apply the change to the contained DimArrays
         for k in self._ds.keys():
             dima = self._ds[k]
             if name not in dima.dims: 
                 continue
-            dima.axes[name] = self[key]
+            dima.axes[name] = newax
 
     def __deepcopy__(self, memo):
         ' deepcopy interface otherwise fails '
